@@ -341,7 +341,7 @@ def roots(tier, seed):
 def run_root(root, ctx, tier):
     sysm = System(root)
     explorer.bfs(sysm, root, root["depth"], ctx, key_prefix=f"C08:{root['kind']}",
-                 check_determinism=False)
+                 check_determinism=False, touch=True)   # peaks are read after every range update
     ctx.nontrivial_case(("root", root.get("values") or root.get("shapes") or root.get("shapes_by_az"),
                          root["grid"], root["kind"]))
     if ctx.counters["roots"] % 400 == 0:
